@@ -135,12 +135,12 @@ theorem compiled_eq_tree_partial (hash : Bytes → Nat) (sat : Nat → Bytes →
 
 /-- **C11, version tree.** Inside a version tree nothing depends on route compilation or on the bloom
 configuration — no guard on the route set at all. -/
-theorem versioned_eq (hash : Bytes → Nat) (sat : Nat → Bytes → Bool) (o o' : Opts) (noRoute : Bool)
+theorem versioned_eq (hash : Bytes → Nat) (sat : Nat → Bytes → Bool) (o o' : Opts) (hw : o.warmAt = o'.warmAt) (noRoute : Bool)
     (script : List Reg) (R : List Route) (hR : specRoutes script = some R) (hN : normal R = true)
     (hstd : ∀ g ∈ script, g.method ∈ stdMethods) (req : Req) (hinj : InjOn hash (hashKeys R req)) :
     serveVersioned hash sat o script noRoute req = serveVersioned hash sat o' script noRoute req := by
   have hNR := lemma_normalR R hN
-  apply versioned_transparent hash sat o o' noRoute script R hR (fun r hr => (hNR r hr).1) _ req
+  apply versioned_transparent hash sat o o' hw noRoute script R hR (fun r hr => (hNR r hr).1) _ req
     (lemma_inj2 hash R req hinj)
   intro r hr
   obtain ⟨g, hg, hgm⟩ := lemma_methods script 0 R hR r hr
@@ -157,11 +157,11 @@ theorem C11_partial (hash : Bytes → Nat) (sat : Nat → Bytes → Bool) (o : O
     (hC : dCfall1 sat R req.method (cutAny req.path) = false)
     (hO : dOrder1 sat R req.method (cutAny req.path) = false) :
     serveWith hash sat o script noRoute req =
-      serveWith hash sat { compiled := false, bloomSize := 0, bloomK := 0, versioned := o.versioned } script noRoute req := by
+      serveWith hash sat { compiled := false, bloomSize := 0, bloomK := 0, versioned := o.versioned, warmAt := o.warmAt } script noRoute req := by
   unfold serveWith
   by_cases hv : o.versioned = true
   · simp only [hv, if_true]
-    exact versioned_eq hash sat _ _ noRoute script R hR hN hstd req hinj
+    exact versioned_eq hash sat o { compiled := false, bloomSize := 0, bloomK := 0, versioned := true, warmAt := o.warmAt } rfl noRoute script R hR hN hstd req hinj
   · simp only [hv, Bool.false_eq_true, if_false]
     by_cases hc : o.compiled = true
     · simp only [hc, if_true]
@@ -177,7 +177,7 @@ theorem classify11_dash (hash : Bytes → Nat) (sat : Nat → Bytes → Bool) (o
     (hinj : InjOn hash (hashKeys R req))
     (hcls : classify11 sat R req (cutAny req.path) = "-") :
     serveWith hash sat o script noRoute req =
-      serveWith hash sat { compiled := false, bloomSize := 0, bloomK := 0, versioned := o.versioned } script noRoute req := by
+      serveWith hash sat { compiled := false, bloomSize := 0, bloomK := 0, versioned := o.versioned, warmAt := o.warmAt } script noRoute req := by
   unfold classify11 at hcls
   simp only at hcls
   cases hN : normal R with
@@ -209,7 +209,7 @@ def anySat : Nat → Bytes → Bool := fun _ _ => true
 def reg (m p : String) (cons : List (Bytes × Nat) := []) : Reg := ⟨B m, [], B p, cons⟩
 /-- a hash that separates all byte strings (base-257 reading) -/
 def polyHash (bs : Bytes) : Nat := bs.foldl (fun h c => h * 257 + c.toNat + 1) 0
-def onOpts : Opts := ⟨true, 0, 0, false⟩
+def onOpts : Opts := ⟨true, 0, 0, false, none⟩
 
 /-- K11a — the compiled matcher scans by number of static segments, then registration order -/
 def k11aScript : List Reg := [reg "GET" "/:kind/list", reg "GET" "/users/:id"]
@@ -276,7 +276,7 @@ def exScript : List Reg :=
   [reg "GET" "/users/:id" [(B "id", 0)], reg "GET" "/users/list", reg "GET" "/health", reg "POST" "/users/:id",
    reg "GET" "/files/*", reg "GET" "/"]
 def exReq : Req := ⟨G, B "/users/42", [B "id"]⟩
-def exOpts : Opts := ⟨true, 7, 5, false⟩
+def exOpts : Opts := ⟨true, 7, 5, false, none⟩
 
 /-- the hypotheses of `compiled_eq_tree_partial` hold for a script with a constrained parameter route,
 static siblings, a second method, a wildcard and the root, a 7-bit bloom filter with 5 hash functions,
@@ -290,5 +290,14 @@ example : ∃ R, specRoutes exScript = some R ∧ normal R = true ∧
     (serveCompiled polyHash exSat exOpts exScript false exReq).lookups = [(B "id", B "42")] :=
   ⟨_, rfl, by decide, by decide, by decide, by decide, by decide, by decide, by decide, by decide,
    by unfold InjOn; decide, by decide, by decide⟩
+
+/-- the placement of the explicit `Warmup()` is part of the versioned engine: the version cache keeps the
+static routes as they were at warm-up (registered before it: answered from the cache, handler 0; the
+re-registration after it only reaches the tree), while a route registered after warm-up is served by the tree -/
+example :
+    (serveVersioned polyHash anySat ⟨true, 0, 0, true, some 1⟩ [reg "GET" "/a", reg "GET" "/a", reg "GET" "/b/:x"] false ⟨G, B "/a", []⟩).ran = some 0 ∧
+    (serveVersioned polyHash anySat ⟨true, 0, 0, true, none⟩ [reg "GET" "/a", reg "GET" "/a", reg "GET" "/b/:x"] false ⟨G, B "/a", []⟩).ran = some 1 ∧
+    (serveVersioned polyHash anySat ⟨true, 0, 0, true, some 1⟩ [reg "GET" "/a", reg "GET" "/a", reg "GET" "/b/:x"] false ⟨G, B "/b/7", []⟩).ran = some 2 := by
+  decide
 
 end Rivaas.C11
